@@ -202,7 +202,7 @@ class Config:
     @property
     def sendfile(self):
         if self.settings['sendfile'].get() is not None:
-            return False
+            return self.settings['sendfile'].get()
 
         if 'SENDFILE' in os.environ:
             sendfile = os.environ['SENDFILE'].lower()
